@@ -137,6 +137,16 @@ fn carrier_specs(thorough: bool) -> Vec<UniSpec> {
     regex: vec![],
     fields: vec!["arguments".into(), "function".into()],
   });
+  // several siblings satisfy the same ofRule pattern with different bindings; wide characters before nodes on a line
+  v.push(UniSpec {
+    full: true,
+    lang: l,
+    sources: vec!["[foo(1), foo(2), foo(1)]".into(), "é = [foo(1), bar(2), foo(2)]".into(), "\"中\"; [foo(2)]".into()],
+    patterns: vec!["foo($A)".into(), "$F(1)".into(), "$F($A)".into()],
+    kinds: vec!["call_expression".into(), "array".into(), "number".into()],
+    regex: vec![vec!["1".into()]],
+    fields: vec!["function".into(), "arguments".into()],
+  });
   v.push(UniSpec {
     full: true,
     lang: l,
